@@ -76,7 +76,7 @@ void newlines_remove_newlines()
             continue;
          }
          else if (  prev->IsNotNullChunk()
-                 && !prev->GetNext()->IsNewline())
+                 && prev->GetNext() != pc)       // pc is gone (another newline may follow prev now)
          {
             pc = prev;
          }
